@@ -39,9 +39,10 @@ def parseEv (ws : List String) : Option (Ev × Nat) :=
       let a ← a.toNat?; let c ← c.toNat?; let nw ← nw.toNat?; let e ← b e; pure (.rel a c nw e, a)
   | ["reinit", n, rc] => do let n ← n.toNat?; let rc ← parseRc rc; pure (.reinit n rc, 0)
   | ["obsLock", v] => do let v ← b v; pure (.obsLock v, 0)
+  | ["obs", c, nw] => do let c ← c.toNat?; let nw ← nw.toNat?; pure (.obs c nw, 0)
   | _ => none
 
-def noActor (ws : List String) : Bool := ws.head! == "reinit" || ws.head! == "obsLock"
+def noActor (ws : List String) : Bool := ws.head! == "reinit" || ws.head! == "obsLock" || ws.head! == "obs"
 
 def step (d : D) (ws : List String) : D × String :=
   if d.dead then (d, "") else
@@ -59,7 +60,8 @@ def step (d : D) (ws : List String) : D × String :=
     | some (e, a) =>
       match ArgoVerif.Model.Barrier.step d.s e with
       | some s' =>
-        let key := if noActor ws then ws.head! else s!"{ws.head!}@{repr (d.s.pc a)}"
+        let key := if noActor ws then ws.head! else
+          s!"{ws.head!}{if ws.head! == "acq" then ws.getLast! else ""}@{repr (d.s.pc a)}"
         let seen := if d.seen.contains key then d.seen else key :: d.seen
         ({ d with s := s', n := d.n + 1, seen := seen }, "")
       | none =>
